@@ -108,7 +108,7 @@ PROPS = {
     "C08": dict(module="ZkElGamal.Props.C08", ns="Zk.Props.C08", trusted=[DALEK],
                 assumptions=["panic-freedom of curve25519-dalek, base64, serde_json, bytemuck, merlin themselves is observed through catch_unwind only, not proved",
                              "harness built with the dev profile: overflow checks and debug assertions on",
-                             "PARTIAL: range-proof decoding/verification entry points are not yet in this check"]),
+                             "range-proof verification: the only assertion on the path (equal operand lengths of the multiscalar multiplication) is theorem mega_lengths_eq; the Rust side is observed through catch_unwind on lengths, fills and structured inputs with well-formed contexts"]),
     "C09": dict(module="ZkElGamal.Props.C09", ns="Zk.Props.C09", trusted=[DALEK],
                 assumptions=[DALEK, "that a wrong key yields no 32-bit amount is a discrete-log statement: the theorem gives the exact target x*G + r(1-s'/s)*H; the run observes None",
                              "decrypt_u32 itself (the discrete-log search) is the subject of C10; here its result is compared with the plaintext known to the generator"]),
